@@ -49,6 +49,10 @@ def run(repo: Repo, rep: Report, tier: str) -> None:
     stores = [n for n in own_nodes(mg.node) if isinstance(n, ast.Assign) and isinstance(n.targets[0], ast.Subscript) and isinstance(n.targets[0].value, ast.Name)
               and ML.root(n.targets[0].value.id) in returned]
     okk = bool(stores) and all(any(isinstance(c, ast.Call) and dotted(c.func) == "max" for c in ast.walk(ML.inline(s.targets[0].slice))) for s in stores)
+    if not stores:
+        # the mapping is built by a dict comprehension: its key expression must be the canonical spelling
+        comps = [x for r in own_nodes(mg.node) if isinstance(r, ast.Return) and r.value is not None for x in ast.walk(ML.inline(r.value)) if isinstance(x, ast.DictComp)]
+        okk = bool(comps) and all(any(isinstance(c, ast.Call) and dotted(c.func) == "max" for c in ast.walk(ML.inline(x.key))) for x in comps)
     if okk:
         rep.ok("R13.2", f"{mg.module.relpath}:{mg.qualname} result keyed by canonical tag", "the returned mapping is keyed by the max(tag_score) spelling that also names the client class and module", mg.loc())
     else:
